@@ -159,7 +159,10 @@ def signal_tables():
     if sorted(jc) != [("Continue", "SIGCONT"), ("Stop", "SIGTSTP")] and dict(jc).keys() != {"Stop", "Continue"}: raise RuntimeError(f"job_control_child: unexpected arms {jc}")
     # the group is addressed: kill(-pid, ...)
     n_group = len(re.findall(r"libc::kill\(-pid(?:_i32)?,", src))
-    n_any = len(re.findall(r"libc::kill\(", src))
+    # every way a unit's process is killed on unix: libc::kill, and tokio's Child::start_kill / kill (which address the leader only),
+    # in unix.rs and in the executor
+    ex = strip_comments(read("nextest-runner/src/runner/executor.rs"))
+    n_any = len(re.findall(r"libc::kill\(", src)) + sum(len(re.findall(r"\.start_kill\(\)|\bchild\.kill\(\)", t)) for t in (src, ex))
     return shut, timeout, jc, (n_group, n_any)
 
 
@@ -293,7 +296,7 @@ def group_lines(g):
                 "/-- `job_control_child` -/",
                 "def jobControlTable : List (String × String) := [" + ", ".join(f'("{a}", "{b}")' for a, b in jc) + "]",
                 "",
-                "/-- `libc::kill` call sites in unix.rs: (addressed to the process group `-pid`, all) -/",
+                "/-- kill sites in unix.rs and executor.rs: (`libc::kill` addressed to the process group `-pid`, all `libc::kill` / `start_kill` / `child.kill`) -/",
                 f"def killSites : Nat × Nat := ({n_group}, {n_any})"]
     if g == "sighandler":
         sigh = signal_handler_table()
